@@ -712,10 +712,28 @@ class _ArgAlias:
             return out
         return set()
 
+    helper_hook = None
+
     def scan_expr(self, node, env):
         for n in ast.walk(node):
             if isinstance(n, (ast.Lambda, ast.FunctionDef)):
                 continue
+            if isinstance(n, ast.Call) and self.helper_hook is not None:
+                repo_, rel_, q_, cb = self.helper_hook
+                callee = None
+                f_ = n.func
+                if isinstance(f_, ast.Name) and f_.id.startswith('_') and \
+                        repo_.has_func(rel_, f_.id):
+                    callee = repo_.func(rel_, f_.id)
+                elif isinstance(f_, ast.Attribute) and f_.attr.startswith(
+                        '_') and not f_.attr.startswith('__') and \
+                        isinstance(f_.value, ast.Name) and '.' in q_:
+                    cq = '%s.%s' % (q_.split('.')[0], f_.attr)
+                    if f_.value.id in ('self', 'cls', q_.split('.')[0]) \
+                            and repo_.has_func(rel_, cq):
+                        callee = repo_.func(rel_, cq)
+                if callee is not None and callee is not self.fn:
+                    cb(n, callee, env)
             if isinstance(n, ast.Call):
                 f = n.func
                 if isinstance(f, ast.Attribute) and f.attr in ARG_MUTATORS \
@@ -854,7 +872,29 @@ def rule_ef_args(repo, col, roots=()):
             continue
         n_f += 1
         hits = []
-        _ArgAlias(fn, lambda node, p, how: hits.append((node, p, how))).run()
+
+        def via_helper(node, callee, env, _rel=rel, _hits=hits):
+            # a private helper that changes, in place, the parameter it is
+            # handed the caller's argument for
+            sub = []
+            _ArgAlias(callee, lambda n_, p_, how_: sub.append((p_, how_))
+                      ).run()
+            hp = [a.arg for a in callee.args.args if a.arg not in
+                  ('self', 'cls')]
+            for p_, how_ in sub:
+                base = p_.split('[')[0]
+                if base not in hp:
+                    continue
+                i = hp.index(base)
+                arg = node.args[i] if len(node.args) > i else next(
+                    (k.value for k in node.keywords if k.arg == base), None)
+                if isinstance(arg, ast.Name):
+                    for cp in env.get(arg.id, ()):
+                        _hits.append((node, cp, '%s(...): %s' % (
+                            callee.name, how_)))
+        aa = _ArgAlias(fn, lambda node, p, how: hits.append((node, p, how)))
+        aa.helper_hook = (repo, rel, q, via_helper)
+        aa.run()
         seen = set()
         for node, p, how in hits:
             if (p, how) in seen:
